@@ -94,3 +94,57 @@ package stgutg
 //@ ensures algs: result.CipheringAlg == 0 && result.IntegrityAlg == 2
 //@ ensures creds: result.AuthenticationSubs.PermanentKey != nil && result.AuthenticationSubs.PermanentKey.PermanentKeyValue == K && result.AuthenticationSubs.Opc != nil && result.AuthenticationSubs.Opc.OpcValue == OPC && result.AuthenticationSubs.Milenage != nil && result.AuthenticationSubs.Milenage.Op != nil && result.AuthenticationSubs.Milenage.Op.OpValue == OP
 //@ ensures fresh: result.ULCount.Get() == 0 && result.DLCount.Get() == 0 && result.AmfUeNgapId == 0
+
+// ---- C19: fail-stop ----
+// Driver-level contract cases: the N2 association is ghost I/O (assumed contracts of
+// (*sctp.SCTPConn).Read/Write: success, or an error that raises the ghost flag io.fault; ngap.Decoder
+// raises it when a reply the procedure consumes is not decodable).  Obligations of class F: no
+// message is sent and the procedure does not return normally once io.fault is raised, and the
+// process exits with a non-zero status.  Run-time panics end the process too (nosafety); the
+// functional preconditions of the callees are the business of C01/C02 (assumepre).
+
+//@ func ManageError
+//@ prop C19
+//@ ensures returns: err == nil
+
+//@ func ManageNGSetup
+//@ prop C19
+//@ behavior failstop
+//@ driver
+//@ assumepre
+//@ nosafety
+
+//@ func RegisterUE
+//@ prop C19
+//@ behavior failstop
+//@ driver
+//@ assumepre
+//@ nosafety
+
+//@ func DeregisterUE
+//@ prop C19
+//@ behavior failstop
+//@ driver
+//@ assumepre
+//@ nosafety
+
+//@ func EstablishPDU
+//@ prop C19
+//@ behavior failstop
+//@ driver
+//@ assumepre
+//@ nosafety
+
+//@ func ReleasePDU
+//@ prop C19
+//@ behavior failstop
+//@ driver
+//@ assumepre
+//@ nosafety
+
+//@ func ServiceRequest
+//@ prop C19
+//@ behavior failstop
+//@ driver
+//@ assumepre
+//@ nosafety
